@@ -683,6 +683,11 @@ reg(Prop("C08", "Search is reproducible and never overspends its node budget",
                          "WithCounters - hard budget 8k..38k nodes / soft limit with hard cap (datagen style) / soft only, 1-2 plies, "
                          "x4 in the thorough tier - and must reproduce a solo run (itself run twice): move, score, ponder, nodes "
                          "and every printed line modulo time; node counts read from the info lines must not pass the budget"),
+          StreamCfg("c08clear", 36, 400, judge="judge_c08clear", model=False,
+                    rule="an engine serves k tiny searches (depth 1 or 1..50 nodes on varying roots), k in {0,1,2,255,256,257,511,512,513} "
+                         "(the generation counter is a byte) and random k <= 600, is cleared by Search.Clear or by ucinewgame through "
+                         "a UCI driver, and must then equal a fresh engine: digest of every table bucket, history / capture / "
+                         "continuation cell and the generation counter, and the answer to a follow-up request of a few thousand nodes"),
           StreamCfg("search", 240, 6000, judge="judge_search", rule=SEARCH_MODEL_RULE)],
          trusted=SEARCH_TRUSTED + SKEL_TRUSTED + SEARCH_MODEL_TRUSTED + [
              "determinism with respect to scheduling and wall clock is OBSERVED (two engines in parallel goroutines under CPU load), not proved: "
